@@ -90,7 +90,7 @@ def shape_symfile(B):
     named = shapes.scope(B, res, root, cls="a816.symbols.NamedScope", name="s")
     B.I.hmut(B.st, B.I.hget(B.st, named).fields["labels"]).items.update({"l": 0x7E0000 + 0x12})
     B.I.hmut(B.st, B.I.hget(B.st, res).fields["scopes"]).items.extend([inner, loop, named])
-    prog = B.inst("a816.program.Program", resolver=res, logger=None, dump_symbols=False, parser=None)
+    prog = B.inst("a816.program.Program", resolver=res, logger=None, dump_symbols=False, parser=None, label_pass_addresses=B.list([]))
     exp = "[labels]\n" + " 0:8000 start\nc1:2345 far\n 1:8002 start\n7e:  12 l\n"
     return {"program": prog, "expected": exp}
 
